@@ -403,11 +403,9 @@ def r13_3(ctx):
                         continue
                     if x.id in cm.functions:
                         continue
-                    imp = cm.imports.get(x.id)
-                    if imp and imp[0].startswith("rich"):
-                        tm = ctx.repo.modules.get(imp[0])
-                        if tm is not None and tm.global_assign_count(imp[1]) == 1:
-                            continue
+                    from ..memo import _global_is_constant
+                    if _global_is_constant(ctx.repo, cm, x.id):
+                        continue
                     bad.append(x.id)
             ctx.check(not bad, fn.fq, "lru_cache purity", fn.where, "memoised function reads only its arguments and single-assignment module constants",
                       f"lru_cache'd function reads non-constant global state {sorted(set(bad))}: result depends on history")
